@@ -184,7 +184,19 @@ class CloneGen:
                     else:
                         n = need("cmp", False, share=r.choice(("in.a", "in.b")), op="==", goal=r.randint(0, 1))
                     fr["precur"].append({"k": "go", "far": far, "needs": [n], "transit": []})
-            hosts.append({"name": hname, "frames": frames, "first": names[0], "clones": clones,
+            # an ORIGINAL (not cloned) auxiliary shared by two frames of one outline, declared after the clones of
+            # those frames: an outline that would claim it twice must be refused whatever else the frames carry
+            origs = {}
+            nested_pairs = [(fr["over"], fr["name"]) for fr in frames if fr["over"]]
+            if nested_pairs and r.random() < 0.5:
+                up, lo = r.choice(nested_pairs)
+                sname = "s%d" % h
+                sfr = frame(sname, sname + "0")
+                for ctx in ("enter", "exit", "recur"):
+                    sfr[ctx].append(rec(self.tag(ctx[0] + sname + "_")))
+                origs = {"framer": {"name": sname, "frames": [sfr], "first": sname + "0", "clones": {}},
+                         "frames": {up: [sname], lo: [sname]} if r.random() < 0.7 else {lo: [sname]}}
+            hosts.append({"name": hname, "frames": frames, "first": names[0], "clones": clones, "origs": origs,
                           "sched": "active" if h == 0 or r.random() < 0.7 else "inactive"})
         envs = {}
         ticks = r.randint(5, 9)
@@ -207,6 +219,7 @@ def script_prog(case):
             f2["over"] = "%s.%s" % (fdef["name"], fr["over"]) if fr["over"] else ""
             f2["under"] = "%s.%s" % (fdef["name"], fr["under"]) if fr["under"] else ""
             f2["auxes"] = ["%s as %s" % (o, t) for (o, t) in fdef["clones"].get(fr["name"], [])]
+            f2["auxes"] += list(fdef.get("origs", {}).get("frames", {}).get(fr["name"], []))
             for a in f2["precur"]:
                 if a["k"] == "go":
                     a["far"] = "%s.%s" % (fdef["name"], a["far"])
@@ -219,6 +232,8 @@ def script_prog(case):
 
     for h in case["hosts"]:
         add(h, h["sched"])
+        if h.get("origs"):
+            add(h["origs"]["framer"], "aux")
     for t in case["templates"].values():
         add(t, "moot")
     return prog
@@ -248,10 +263,14 @@ def spec_prog(case, auxnames):
                         if n["k"] == "auxdone":
                             n["frame"] = "%s.%s" % (name, n["frame"])
             decl = fdef["clones"].get(fr["name"], [])
+            shared = list(fdef.get("origs", {}).get("frames", {}).get(fr["name"], [])) if sched != "aux" or True else []
             real = auxnames.get((name, fr["name"]), [])
+            if real[len(decl):] != shared:
+                raise ValueError("frame %s.%s: original auxiliaries %r built as %r" % (name, fr["name"], shared, real))
+            real = real[:len(decl)]
             if len(real) != len(decl):
                 raise ValueError("frame %s.%s: %d clones declared, %d auxiliaries built (%r)" % (name, fr["name"], len(decl), len(real), real))
-            f2["auxes"] = list(real)
+            f2["auxes"] = list(real) + shared
             prog["frames"][key] = f2
             keys.append(key)
             for (orig, tag), cname in zip(decl, real):
@@ -264,6 +283,8 @@ def spec_prog(case, auxnames):
 
     for h in case["hosts"]:
         instantiate(h, h["name"], h["sched"], h["name"], "")
+        if h.get("origs"):
+            instantiate(h["origs"]["framer"], h["origs"]["framer"]["name"], "aux", h["name"], "")
     return prog
 
 
